@@ -597,6 +597,77 @@ pub fn gen_pjswitch(r: &mut Rng) -> Case {
     Case { program: p, ops }
 }
 
+// ------------------------------------------------------------------------------------------
+// stress family (mode `pjchain`): chains of projections over projections with value-dependent
+// reads at every level, firewalls with tiny value ranges (A->B->A and coinciding values are
+// common), several normal roots reading different levels; every round queries a random subset of
+// the roots, so that projections are re-executed by query callers (pending flags that outlive
+// epochs, dependencies dropped while pending) as well as by backward projection.
+// ------------------------------------------------------------------------------------------
+
+pub fn gen_pjchain(r: &mut Rng) -> Case {
+    let mut nodes: Vec<NodeDef> = vec![];
+    let n_in = 3 + r.below(2) as u32;
+    for _ in 0..n_in { nodes.push(NodeDef { kind: Kind::Input, default: 0, expr: Expr::Const(0) }); }
+    let inputs: Vec<u32> = (0..n_in).collect();
+    let mut fws = vec![];
+    for i in 0..n_in {
+        fws.push(nodes.len() as u32);
+        let e = match r.below(3) {
+            0 => Expr::Read(i),
+            1 => Expr::IfEq(Box::new(Expr::Read(i)), r.below(3) as i64, Box::new(Expr::Const(r.below(2) as i64)), Box::new(Expr::Read(i))),
+            _ => Expr::IfEq(Box::new(Expr::Read(i)), r.below(3) as i64, Box::new(Expr::Const(1)), Box::new(Expr::Const(0))),
+        };
+        nodes.push(NodeDef { kind: Kind::Firewall, default: kind_default(Kind::Firewall), expr: e });
+    }
+    let mut pool: Vec<u32> = fws.clone();      // firewalls and projections so far
+    let mut pjs: Vec<u32> = vec![];
+    let n_pj = r.range(2, 5);
+    for _ in 0..n_pj {
+        let a = *r.pick(&pool); let b = *r.pick(&pool); let c = *r.pick(&pool);
+        let other = match r.below(3) { 0 => Expr::Const(r.below(3) as i64), 1 => Expr::Read(c), _ => Expr::Read(a) };
+        let e = match r.below(4) {
+            0 => Expr::Read(*r.pick(&pool)),
+            1 => Expr::Add(Box::new(Expr::Read(a)), Box::new(Expr::Read(b))),
+            _ => Expr::IfEq(Box::new(Expr::Read(a)), r.below(3) as i64, Box::new(Expr::Read(b)), Box::new(other)),
+        };
+        let k = nodes.len() as u32;
+        nodes.push(NodeDef { kind: Kind::Projection, default: kind_default(Kind::Projection), expr: e });
+        pjs.push(k);
+        // later projections prefer projections
+        pool.push(k); pool.push(k);
+    }
+    let mut roots: Vec<u32> = vec![];
+    let n_roots = r.range(2, 4);
+    for _ in 0..n_roots {
+        let a = *r.pick(&pjs);
+        let e = match r.below(3) {
+            0 => Expr::Read(a),
+            1 => Expr::Add(Box::new(Expr::Read(a)), Box::new(Expr::Read(*r.pick(&pool)))),
+            _ => { let below: Vec<u32> = roots.clone(); if below.is_empty() { Expr::Read(a) } else { Expr::Add(Box::new(Expr::Read(*r.pick(&below))), Box::new(Expr::Read(a))) } }
+        };
+        let k = nodes.len() as u32;
+        nodes.push(NodeDef { kind: Kind::Normal, default: kind_default(Kind::Normal), expr: e });
+        roots.push(k);
+    }
+    let p = Program { nodes };
+    let mut ops = vec![Op::Session(inputs.iter().map(|k| Write::Set(*k, r.below(3) as i64)).collect())];
+    // the first round computes only some of the roots: the others are fresh roots later
+    ops.push(Op::Round(vec![*r.pick(&roots)]));
+    for _ in 0..r.range(4, 10) {
+        if r.chance(4, 5) {
+            let mut ws = vec![];
+            for _ in 0..r.range(1, 2) { ws.push(Write::Set(*r.pick(&inputs), r.below(3) as i64)); }
+            ops.push(Op::Session(ws));
+        }
+        let mut ks = vec![];
+        for _ in 0..r.range(1, 2) { ks.push(if r.chance(1, 6) { *r.pick(&pjs) } else { *r.pick(&roots) }); }
+        ops.push(Op::Round(ks));
+    }
+    ops.push(Op::Round(roots.clone()));
+    Case { program: p, ops }
+}
+
 pub fn gen_layered(r: &mut Rng) -> Case {
     let mut nodes: Vec<NodeDef> = vec![];
     let n_in = r.range(2, 4) as u32;
